@@ -255,7 +255,123 @@ pub mod ed25519_dalek {
     }
 }
 
-pub mod secp256k1 {}
+/// rust-secp256k1 (bindings to libsecp256k1), second secp256k1 back-end.  Everything here is an ASSUMPTION about that
+/// library.  The two facts that tie it to the k256 vocabulary (X1, X2) are the CROSS-LIBRARY assumptions C11 rests on:
+/// on the standard SEC1 encodings the two libraries accept the same points, and they implement the same ECDSA predicate.
+pub mod secp256k1 {
+    use super::super::sp::*;
+    use vstd::prelude::*;
+    use super::k256::ecdsa::{sec1_standard, sec1_valid, sec1_key, vk_compressed, vk_xy, vk_verify_v4};
+    pub mod constants {
+        pub const PUBLIC_KEY_SIZE: usize = 33;
+        pub const UNCOMPRESSED_PUBLIC_KEY_SIZE: usize = 65;
+    }
+    #[verifier::external_body]
+    pub struct SecretKey { _p: () }
+    #[verifier::external_body]
+    #[derive(Clone, Copy, Debug, PartialEq, Eq)]
+    pub struct PublicKey { _p: () }
+    pub struct Error { pub _p: () }
+    #[verifier::external_body]
+    pub struct Message { _p: () }
+    /// the global verification/signing context
+    #[derive(Clone, Copy)]
+    pub struct Secp256k1 { pub _p: () }
+    pub const SECP256K1: Secp256k1 = Secp256k1 { _p: () };
+
+    /// 33-byte compressed / 65-byte uncompressed serialisation of a public key
+    pub uninterp spec fn pk_comp(p: &PublicKey) -> Seq<u8>;
+    pub uninterp spec fn pk_unc(p: &PublicKey) -> Seq<u8>;
+    /// what `PublicKey::from_slice` accepts (compressed, uncompressed AND hybrid encodings of valid points) and yields
+    pub uninterp spec fn lib_accepts(b: Seq<u8>) -> bool;
+    pub uninterp spec fn key_of(b: Seq<u8>) -> PublicKey;
+    pub uninterp spec fn sk_public(k: &SecretKey) -> PublicKey;
+    pub uninterp spec fn msg_digest(m: &Message) -> Seq<u8>;
+    /// libsecp256k1: ECDSA verification of a (normalised, low-S) compact signature over a 32-byte digest
+    pub uninterp spec fn lib_verify(p: &PublicKey, digest: Seq<u8>, sig: &ecdsa::Signature) -> bool;
+
+    /// a key serialises to a standard compressed encoding that parses back to the same key
+    #[verifier::external_body]
+    pub proof fn axiom_pk_roundtrip(p: PublicKey)
+        ensures pk_comp(&p).len() == 33, pk_comp(&p)[0] == 2 || pk_comp(&p)[0] == 3, lib_accepts(pk_comp(&p)), key_of(pk_comp(&p)) == p,
+    {}
+    /// X1 (cross-library): on a STANDARD SEC1 encoding both libraries accept the same byte strings, and the keys they yield
+    /// have the same compressed form
+    #[verifier::external_body]
+    pub proof fn axiom_x1_same_points(b: Seq<u8>)
+        requires sec1_standard(b),
+        ensures
+            lib_accepts(b) == sec1_valid(b),
+            sec1_valid(b) ==> pk_comp(&key_of(b)) == vk_compressed(&sec1_key(b)),
+    {}
+    /// X1' (cross-library): the x||y form libsecp256k1 serialises is the one k256 computes for the same point
+    #[verifier::external_body]
+    pub proof fn axiom_x1_same_xy(p: PublicKey)
+        ensures pk_unc(&p).len() == 65, pk_unc(&p).subrange(1, 65) == vk_xy(&sec1_key(pk_comp(&p))),
+    {}
+    /// X2 (cross-library): "the 64 bytes parse as a compact signature and libsecp256k1 verifies it over keccak256(msg)" is the
+    /// predicate k256 implements (r, s in range, low-S, ECDSA over keccak256(msg)) for the same point
+    #[verifier::external_body]
+    pub proof fn axiom_x2_same_ecdsa(p: PublicKey, msg: Seq<u8>, sig: Seq<u8>)
+        ensures (ecdsa::sigc_ok(sig) && lib_verify(&p, crate::standin::sha3::keccak(msg), &ecdsa::sigc_of(sig)))
+            == vk_verify_v4(&sec1_key(pk_comp(&p)), msg, sig),
+    {}
+
+    pub mod ecdsa {
+        use vstd::prelude::*;
+        #[verifier::external_body]
+        pub struct Signature { _p: () }
+        /// `Signature::from_compact` accepts exactly 64 bytes whose r and s do not overflow the group order
+        pub uninterp spec fn sigc_ok(b: Seq<u8>) -> bool;
+        pub uninterp spec fn sigc_of(b: Seq<u8>) -> Signature;
+        pub uninterp spec fn sigc_bytes(s: &Signature) -> Seq<u8>;
+        impl Signature {
+            #[verifier::external_body]
+            pub fn from_compact(b: &[u8]) -> (r: Result<Self, super::Error>)
+                ensures r is Ok <==> sigc_ok(b@), r matches Ok(s) ==> s == sigc_of(b@),
+            { unimplemented!() }
+            #[verifier::external_body]
+            pub fn serialize_compact(&self) -> (r: [u8; 64])
+                ensures r@ == sigc_bytes(self), sigc_ok(r@), sigc_of(r@) == *self,
+            { unimplemented!() }
+        }
+    }
+    impl Message {
+        #[verifier::external_body]
+        pub fn from_digest(d: [u8; 32]) -> (r: Message)
+            ensures msg_digest(&r) == d@,
+        { unimplemented!() }
+    }
+    impl Secp256k1 {
+        /// libsecp256k1 signing: the result verifies under the signer's public key (LIBRARY LAW, assumed)
+        #[verifier::external_body]
+        pub fn sign_ecdsa_with_noncedata(&self, msg: &Message, sk: &SecretKey, noncedata: &[u8; 32]) -> (r: ecdsa::Signature)
+            ensures lib_verify(&sk_public(sk), msg_digest(msg), &r),
+        { unimplemented!() }
+        #[verifier::external_body]
+        pub fn verify_ecdsa(&self, msg: &Message, sig: &ecdsa::Signature, pk: &PublicKey) -> (r: Result<(), Error>)
+            ensures r is Ok <==> lib_verify(pk, msg_digest(msg), sig),
+        { unimplemented!() }
+    }
+    impl PublicKey {
+        #[verifier::external_body]
+        pub fn from_secret_key(secp: Secp256k1, sk: &SecretKey) -> (r: PublicKey)
+            ensures r == sk_public(sk),
+        { unimplemented!() }
+        #[verifier::external_body]
+        pub fn from_slice(b: &[u8]) -> (r: Result<PublicKey, Error>)
+            ensures r is Ok <==> lib_accepts(b@), r matches Ok(p) ==> p == key_of(b@),
+        { unimplemented!() }
+        #[verifier::external_body]
+        pub fn serialize(&self) -> (r: [u8; 33])
+            ensures r@ == pk_comp(self),
+        { unimplemented!() }
+        #[verifier::external_body]
+        pub fn serialize_uncompressed(&self) -> (r: [u8; 65])
+            ensures r@ == pk_unc(self),
+        { unimplemented!() }
+    }
+}
 
 pub mod base64 {
     use super::super::sp::*;
@@ -384,7 +500,19 @@ pub mod zeroize {
 }
 
 pub mod rand {
-    pub mod rngs { pub struct OsRng; }
+    use vstd::prelude::*;
+    pub trait RngCore {
+        fn fill_bytes(&mut self, dest: &mut [u8])
+            ensures final(dest)@.len() == old(dest)@.len();
+    }
+    pub mod rngs {
+        use vstd::prelude::*;
+        pub struct OsRng;
+        impl super::RngCore for OsRng {
+            #[verifier::external_body]
+            fn fill_bytes(&mut self, dest: &mut [u8]) { unimplemented!() }
+        }
+    }
 }
 
 /// serde, reduced to what the crate's own `Serialize`/`Deserialize` impls touch: a serializer that is handed ONE string, and
